@@ -122,3 +122,9 @@ META["C14"] = dict(
     text=("Generated histories of every image setter, pixel writes and composites; at each composite the long-lived images must "
           "render exactly like fresh images given the same final properties and pixels."),
     note="Trusted: the harness's model of 'current properties' (one field per setter).")
+META["C20"] = dict(
+    technique="stateful / model-based property-based testing (rapidcheck) under ASan+LSan with an allocation counter: reference-count model of images and alpha-map edges",
+    design_ref="§4 C20",
+    text=("Generated create/ref/unref/set_* histories over a pool of images against a reference-count model; unref return values, "
+          "destroy callbacks, alpha-map lifetimes and the library's live allocation count are checked, under ASan/LSan."),
+    note="Trusted: the model in props/lifetime.cpp; ASan/LSan; the allocation shims. Found and fixed: S21.")
